@@ -55,7 +55,7 @@ def run(ctx) -> None:
         rep.check("C15.R1", bool(ok), R, r.ast, "the status is returned from inside (or after) the root context block", "a status is returned before the root context was entered")
     rep.floor("C15.R1", len(rets), 5)
     # what teardown does is C01 (the crash-of-a-service-task case cancels the root scope: the loop must survive BaseException)
-    include_rules(ctx, "c01", "C15.R1", only=("C01.R1", "C01.R2", "C01.R3", "C01.R5", "C01.R6", "C01.R7"))
+    include_rules(ctx, "c01", "C15.R1", only=("C01.R1", "C01.R2", "C01.R3", "C01.R5", "C01.R6", "C01.R7", "C01.R8"))
     include_rules(ctx, "c08", "C15.R1", only=("C08.R2", "C08.R3"))
     # a clean ending stays clean only if child contexts (service tasks' own contexts) are
     # unlinked on every exit route: otherwise the root reports "stack corruption"
